@@ -553,6 +553,12 @@ static void worker(int t) {
     curop[t] = -1;
     inflight[t] = -1;
     int plain_store_op = optable[o->op].cls == 6 || strstr(optable[o->op].opname, "clear") != NULL;
+    if (tso_on && !plain_store_op && optable[o->op].cls != 5 && optable[o->op].cls != 8) // (not the algorithms: a CAS loop may legitimately find nothing to do)
+      // a read-modify-write is a full barrier: a plain store the same thread made before it is visible when it returns. If it is
+      // not (nothing in the operation drained the buffer), the store's response is stamped here all the same -- later
+      // operations of anybody may rely on it, whatever object they are about
+      for (int q = 0; q < k; q++)
+        if (sb_defer[t][q]) { sb_defer[t][q] = 0; R->r[t][q].resp = ++stamp; }
     if (tso_on && plain_store_op && sb_out[t][k] > 0) sb_defer[t][k] = 1; // stamped when the store becomes visible
     else if (tso_on && optable[o->op].cls == 5 && sb_fwd_in_op[t] && sb_n[t]) { sb_defer[t][k] = 2; sb_need[t][k] = sb_seq[t]; } // a plain load served from the buffer
     else r->resp = ++stamp;
